@@ -10,5 +10,7 @@ head = open(os.path.join(V, "docsrc", "DESIGN_head.md")).read()
 sec4 = open(os.path.join(V, "docsrc", "DESIGN_sec4.md")).read()
 tail = open(os.path.join(V, "docsrc", "DESIGN_tail.md")).read()
 tail = tail.replace("@@FINDINGS@@", tab("findings")).replace("@@SEEDED@@", tab("seeded")).replace("@@BENIGN@@", tab("benign"))
+import re
+tail = re.sub(r" ?@@[A-Z0-9_]+@@", "", tail)
 open(os.path.join(V, "DESIGN.md"), "w").write(head.rstrip() + "\n\n" + sec4.rstrip() + "\n\n" + tail)
 print("DESIGN.md written")
